@@ -212,7 +212,7 @@ def check(report: Report, repo: Repo) -> None:
                 ok = isinstance(cp_, Obj) and cp_ is not sp_ and all(cp_.attrs.get(t_, "<lost>") == sp_.attrs[t_] for t_ in TAGS)
                 report.add("R4-transforms", f"{cons}[{nm}.{pn}]", ok, "after unit_scale the copy's parameter is a distinct object that still carries the source's u-muP tags", fmt({t_: cp_.attrs.get(t_, "<lost>") for t_ in TAGS}) if isinstance(cp_, Obj) else fmt(cp_), fmt({t_: sp_.attrs[t_] for t_ in TAGS}))
                 if ok:
-                    okh = all(isinstance(cp_.attrs.get(h), Bound) and cp_.attrs[h].func is HOOKS[h] and cp_.attrs[h].self_val is cp_ for h in HOOKS)
+                    okh = all(isinstance(cp_.attrs.get(h), Bound) and getattr(cp_.attrs[h].func, "node", None) is HOOKS[h].node and cp_.attrs[h].self_val is cp_ for h in HOOKS)
                     report.add("R4-transforms", f"{cons}[{nm}.{pn}]::hooks", okh, "and its copy / pickle hooks (bound to itself), so later copies keep the tags too", sorted(h for h in HOOKS if h in cp_.attrs), sorted(HOOKS))
         report.floor("parameters followed through unit_scale", n_par, 6)
     except Unsupported as ex:
